@@ -1,9 +1,10 @@
 /- Line-protocol driver: one request per line on stdin, one reply per line on stdout.
    Unknown or undecodable requests answer "bad-op" (never a default value). -/
 import Curtsies.Driver.FmtStr
+import Curtsies.Driver.Sgr
 open Curtsies.Driver
 
-def handlers : List (List String → Option String) := [fmtOps]
+def handlers : List (List String → Option String) := [fmtOps, sgrOps]
 
 def step (line : String) : String :=
   let args := (line.trimAscii.toString.splitOn " ")
